@@ -119,3 +119,74 @@ def mono_cases(rng, tier):
             if a2 < W128:
                 cases.append(mono_case(x, y, a, a2, c, "random"))
     return cases
+
+
+# ---------------- compute_offer_amount ----------------
+def rev_case(x, y, k, c, stream):
+    return Case("compute_offer_amount", [x, y, k, c],
+                [("compute_offer_amount %d %d %d %d" % (x, y, k, c), "n3")], stream)
+
+
+def reverse_cases(rng, tier):
+    n = {"quick": 1, "thorough": 12}[tier]
+    cases = [rev_case(30000000000, 20000000000, 949523810, 3 * 10 ** 15, "corpus"),
+             rev_case(1, 1, 1, 0, "corpus"), rev_case(0, 5, 1, 0, "corpus"), rev_case(5, 0, 0, 0, "corpus"),
+             rev_case(5, 5, 0, D, "corpus"), rev_case(5, 5, 1, D + 1, "corpus"), rev_case(5, 5, 5, 0, "corpus"),
+             rev_case(5, 5, 4, 0, "corpus"), rev_case(W128 - 1, W128 - 1, 1, 3 * 10 ** 15, "corpus")]
+    rs = rates(rng, 4) + [D - 1, D - 2, D - 10 ** 9, D - 10 ** 17]
+    for _ in range(300 * n):
+        c = rng.choice(rs)
+        x, y = loguniform(rng, 1, 127), loguniform(rng, 1, 127)
+        mode = rng.randrange(3)
+        if mode == 0:
+            k = loguniform(rng, 0, 127)
+        elif mode == 1:
+            k = max(0, y // rng.choice([2, 3, 10, 1000, 10 ** 6]))
+        else:
+            # t near y: k ~ y*(1-c)
+            k = y * (D - c) // D if c <= D else 0
+        for dk in (-1, 0, 1):
+            if 0 <= k + dk < W128:
+                cases.append(rev_case(x, y, k + dk, c, "directed-boundary" if mode == 2 else "random"))
+    return cases
+
+
+# ---------------- lp_share ----------------
+def share_case(wl, min0, min1, T, d0, d1, r0, r1, stream):
+    return Case("lp_share", [bool(wl), min0, min1, T, d0, d1, r0, r1],
+                [("lp_share %d %d %d %d %d %d %d %d" % (1 if wl else 0, min0, min1, T, d0, d1, r0, r1), "n")], stream)
+
+
+def share_cases(rng, tier):
+    n = {"quick": 1, "thorough": 12}[tier]
+    cases = []
+    # first provision: whitelist x minimums matrix, sqrt boundaries, u128 overflow of d0*d1
+    for wl in (0, 1):
+        for (m0, m1, d0, d1) in [(10, 10, 10, 10), (10, 10, 9, 10), (10, 10, 10, 9), (10, 10, 9, 9), (0, 0, 0, 0),
+                                 (0, 0, 1, 1), (0, 0, 1, 3), (0, 0, 2, 2), (5, 7, 1000, 4000),
+                                 (0, 0, 2 ** 64, 2 ** 64), (0, 0, 2 ** 64 - 1, 2 ** 64), (0, 0, 2 ** 64 - 1, 2 ** 64 + 1),
+                                 (0, 0, 2 ** 127, 1), (0, 0, 2 ** 127, 2), (0, 0, W128 - 1, 1)]:
+            cases.append(share_case(wl, m0, m1, 0, d0, d1, rng.randrange(5), rng.randrange(5), "directed-matrix"))
+    for _ in range(60 * n):
+        s = loguniform(rng, 1, 63)
+        for (d0, d1) in [(s, s), (s * s, 1), (s, s + 1), (s - 1, s + 1)]:
+            cases.append(share_case(1, 0, 0, 0, d0, d1, 0, 0, "directed-sqrt"))
+    # later provisions
+    for _ in range(300 * n):
+        r0, r1, T = loguniform(rng, 1, 120), loguniform(rng, 1, 120), loguniform(rng, 1, 120)
+        mode = rng.randrange(3)
+        if mode == 0:
+            d0, d1 = loguniform(rng, 0, 127), loguniform(rng, 0, 127)
+        else:
+            k = loguniform(rng, 1, 20) + 1
+            d0 = max(1, r0 // k)
+            d1 = d0 * r1 // r0 if r0 else 1
+            if mode == 2:
+                d1 += rng.choice([-1, 1, 2, 1000])
+        for (a, b) in [(d0, d1), (d0 + 1, d1), (d0, max(0, d1 - 1))]:
+            if a < W128 and 0 <= b < W128:
+                cases.append(share_case(rng.randrange(2), 0, 0, T, a, b, r0, r1, "random"))
+    for (T, d0, d1, r0, r1) in [(5, 5, 5, 0, 5), (5, 5, 5, 5, 0), (W128 - 1, W128 - 1, W128 - 1, 1, 1),
+                                (W128 - 1, 2, 2, 1, 1), (1, 0, 0, 1, 1), (1, 1, 0, 1, 1)]:
+        cases.append(share_case(1, 0, 0, T, d0, d1, r0, r1, "directed-boundary"))
+    return cases
